@@ -185,8 +185,22 @@ def check_callers(ctx, F, rule, callee_q, allowed, min_sites=1, desc=None):
         # the function exists but the required call sites are gone: that is what the rule is about
         ctx.bad(rule, "%s has %d call site(s)" % (desc, len(sites)), "at least %d call site(s) of %s (in %s)" % (min_sites, desc, sorted(allowed)),
                 "%d call sites" % len(sites), where="", key="%s|%s|missing" % (rule, desc))
+    def _outer(q):
+        return re.sub(r"(::\{closure#\d+\})+$", "", q)
+    allowed_outer = {_outer(k) for k in allowed}
+
+    def _allowed(q, depth=0):
+        # the listed function itself, any closure of it, or a non-public helper all of whose callers are allowed (helper extraction)
+        o = _outer(q)
+        if q in allowed or o in allowed_outer:
+            return True
+        h = F.fns.get(o)
+        if h is None or depth >= 2 or str(h.meta.get("vis", "")).startswith("Public"):
+            return False
+        cs2 = callers(F, o)
+        return bool(cs2) and all(_allowed(c.fn.q, depth + 1) for c in cs2)
     for cs in sites:
-        okc = cs.fn.q in allowed
+        okc = _allowed(cs.fn.q)
         ctx.judge(okc, rule, "%s <- %s" % (desc, cs.fn.q),
                   expected="callers of %s limited to %s" % (desc, sorted(allowed)),
                   found="call from %s" % cs.fn.q, detail=allowed.get(cs.fn.q, ""), where=where(cs.fn, cs.line),
